@@ -340,6 +340,9 @@ def rule_sym(ctx, prop):
             src = path_key(ap)
             if ap[0][0] == "call":
                 src = callee(f.blocks[ap[0][1]]["term"]).split("::", 2)[-1] + "()" + src[len(f"call:{ap[0][1]}"):]
+            if len(lits) > 1 and len({x.strip(" ") for x in lits}) == 1:
+                # `let text = match spacing { .. => " in ", .. => "in " }`: one lexeme, several spacings
+                lits = [sorted(lits, key=len)[-1]]
             if not rep.anchor(len(lits) == 1, f"{f.path}: literal of format_symbol at {loc} ({lits})", cfg):
                 continue
             lit = lits[0]
@@ -367,7 +370,7 @@ def rule_sym(ctx, prop):
                     rep.violation(f"{f.key} separator={lex!r} not-in={sorted(allowed[0])}",
                                   f"{f.path} writes {lit!r} where only {sorted(allowed[0])} can stand ({allowed[1]})",
                                   loc, cfg)
-        rep.floor("format_symbol call sites", n, 70 if cfg in ("default", "nodefault", "luajit") else 72, cfg)
+        rep.floor("format_symbol call sites", n, 55, cfg)
         rep.floor("format_symbol sites with a typed token source", typed, 50, cfg)
         # every TokenReference::symbol literal is a valid symbol (otherwise .unwrap() panics) without newlines
         m = 0
@@ -690,6 +693,11 @@ def rule_collapse(ctx, prop):
             fns = [prog.fn("stylua_lib", m) for m in members]
             if not rep.anchor(all(f is not None for f in fns), f"collapse guard functions {members}", cfg):
                 continue
+            # comment tests moved into a private boolean helper (`condition_requires_multiline(.., token, cond, token)`) count
+            from inline import inlined
+            fns = [inlined(prog, f, lambda caller, h, t: h.locals[0] == "bool" and len(h.blocks) <= 100 and
+                           re.search(r"^formatters::(stmt|functions|block|table|assignment|expression)::", h.path) and
+                           h.path not in members, depth=1) for f in fns]
             tested = {}
             for f in fns:
                 for b, t in f.calls():
